@@ -18,11 +18,14 @@
 (***************************************************************************)
 EXTENDS Naturals, Integers, Sequences, FiniteSets, TLC
 
-CONSTANTS Depth, Delays, Deadline, MaxTime, GateBudget
+CONSTANTS Depth, Delays, Deadline, MaxTime, GateBudget, ExtendBy
 
 Hops == 1..Depth
-VARIABLES now, call, handler, link, hdl, htr, hspan, nextSpan, delay, pend, gate, gb
-vars == <<now, call, handler, link, hdl, htr, hspan, nextSpan, delay, pend, gate, gb>>
+VARIABLES now, call, handler, link, hdl, htr, hspan, nextSpan, delay, pend, gate, gb, ext, npass
+vars == <<now, call, handler, link, hdl, htr, hspan, nextSpan, delay, pend, gate, gb, ext, npass>>
+(* ext[k]   : what the handler of hop k adds to its own deadline for its nested call (a handler may ask for more time than   *)
+(*            it has itself; it will be aborted first, but the nested request must go out as asked)                          *)
+(* npass[k] : the deadline the handler of hop k passed to its nested call                                                   *)
 (* pend[k]    : what the client of hop k has to write while its sink is not ready (back-pressure):  *)
 (*              messages wait here, in order, until the gate of hop k is open (G-C03/G-C14: a       *)
 (*              cancellation or request that cannot be written yet is kept and written later)        *)
@@ -39,6 +42,7 @@ Init ==
   /\ nextSpan = 100
   /\ delay \in [Hops -> Delays]
   /\ pend = [k \in Hops |-> <<>>] /\ gate = [k \in Hops |-> TRUE] /\ gb = GateBudget
+  /\ ext \in [Hops -> {0, ExtendBy}] /\ npass = [k \in Hops |-> -1]
 
 At(k) == IF now + delay[k] > MaxTime THEN MaxTime ELSE now + delay[k]
 (* messages are first queued at the sending client (fields: kind, -, deadline, trace id, span, -) *)
@@ -49,17 +53,17 @@ Write(k) ==
   /\ LET m == Head(pend[k]) IN
        link' = [link EXCEPT ![k] = Append(@, <<m[1], At(k), m[3], m[4], m[5], now>>)]
   /\ pend' = [pend EXCEPT ![k] = Tail(@)]
-  /\ UNCHANGED <<now, call, handler, hdl, htr, hspan, nextSpan, delay, gate, gb>>
+  /\ UNCHANGED <<now, call, handler, hdl, htr, hspan, nextSpan, delay, gate, gb, ext, npass>>
 CloseGate(k) == gate[k] /\ gb > 0 /\ gate' = [gate EXCEPT ![k] = FALSE] /\ gb' = gb - 1
-                /\ UNCHANGED <<now, call, handler, link, hdl, htr, hspan, nextSpan, delay, pend>>
+                /\ UNCHANGED <<now, call, handler, link, hdl, htr, hspan, nextSpan, delay, pend, ext, npass>>
 OpenGate(k) == ~gate[k] /\ gate' = [gate EXCEPT ![k] = TRUE]
-               /\ UNCHANGED <<now, call, handler, link, hdl, htr, hspan, nextSpan, delay, pend, gb>>
+               /\ UNCHANGED <<now, call, handler, link, hdl, htr, hspan, nextSpan, delay, pend, gb, ext, npass>>
 
 Start ==
   /\ call[1] = "none"
   /\ call' = [call EXCEPT ![1] = "open"]
   /\ Send(1, "req", Deadline, 7, 201)
-  /\ UNCHANGED <<now, handler, link, hdl, htr, hspan, nextSpan, delay, gate, gb>>
+  /\ UNCHANGED <<now, handler, link, hdl, htr, hspan, nextSpan, delay, gate, gb, ext, npass>>
 
 (* the server channel of hop k reads the next item of its link *)
 Read(k) ==
@@ -76,8 +80,9 @@ Read(k) ==
           /\ htr' = [htr EXCEPT ![k] = m[4]] /\ hspan' = [hspan EXCEPT ![k] = 100 + k]
           /\ IF k < Depth
                THEN /\ call' = [call EXCEPT ![k + 1] = "open"]
-                    /\ Send(k + 1, "req", dlp, m[4], 201 + k)
-               ELSE UNCHANGED <<call, pend>>
+                    /\ Send(k + 1, "req", dlp + ext[k], m[4], 201 + k)
+                    /\ npass' = [npass EXCEPT ![k] = dlp + ext[k]]
+               ELSE UNCHANGED <<call, pend, npass>>
         ELSE \* Cancel: G-C04 aborts a running handler, G-drop drops its nested call, G-C03 cancels it on the next link
           /\ IF handler[k] = "running"
                THEN /\ handler' = [handler EXCEPT ![k] = "aborted"]
@@ -86,8 +91,8 @@ Read(k) ==
                               /\ Send(k + 1, "cancel", 0, m[4], m[5])
                          ELSE UNCHANGED <<call, pend>>
                ELSE UNCHANGED <<handler, call, pend>>
-          /\ UNCHANGED <<hdl, htr, hspan>>
-  /\ UNCHANGED <<now, nextSpan, delay, gate, gb>>
+          /\ UNCHANGED <<hdl, htr, hspan, npass>>
+  /\ UNCHANGED <<now, nextSpan, delay, gate, gb, ext>>
 
 (* G-C06 + G-drop: the handler of hop k is aborted when its deadline passes *)
 Expire(k) ==
@@ -97,26 +102,26 @@ Expire(k) ==
        THEN /\ call' = [call EXCEPT ![k + 1] = "dropped"]
             /\ Send(k + 1, "cancel", 0, htr[k], 0)
        ELSE UNCHANGED <<call, pend>>
-  /\ UNCHANGED <<now, link, hdl, htr, hspan, nextSpan, delay, gate, gb>>
+  /\ UNCHANGED <<now, link, hdl, htr, hspan, nextSpan, delay, gate, gb, ext, npass>>
 
 (* the caller abandons the head call: G-C03 puts a Cancel behind the request *)
 Abandon ==
   /\ call[1] = "open"
   /\ call' = [call EXCEPT ![1] = "dropped"]
   /\ Send(1, "cancel", 0, 7, 0)
-  /\ UNCHANGED <<now, handler, link, hdl, htr, hspan, nextSpan, delay, gate, gb>>
+  /\ UNCHANGED <<now, handler, link, hdl, htr, hspan, nextSpan, delay, gate, gb, ext, npass>>
 
 LeafDone ==
   /\ handler[Depth] = "running"
   /\ handler' = [handler EXCEPT ![Depth] = "done"] /\ call' = [call EXCEPT ![Depth] = IF @ = "open" THEN "done" ELSE @]
-  /\ UNCHANGED <<now, link, hdl, htr, hspan, nextSpan, delay, pend, gate, gb>>
+  /\ UNCHANGED <<now, link, hdl, htr, hspan, nextSpan, delay, pend, gate, gb, ext, npass>>
 (* a handler whose nested call is done finishes *)
 Return(k) ==
   /\ k < Depth /\ handler[k] = "running" /\ call[k + 1] = "done"
   /\ handler' = [handler EXCEPT ![k] = "done"] /\ call' = [call EXCEPT ![k] = IF @ = "open" THEN "done" ELSE @]
-  /\ UNCHANGED <<now, link, hdl, htr, hspan, nextSpan, delay, pend, gate, gb>>
+  /\ UNCHANGED <<now, link, hdl, htr, hspan, nextSpan, delay, pend, gate, gb, ext, npass>>
 
-Tick == now < MaxTime /\ now' = now + 1 /\ UNCHANGED <<call, handler, link, hdl, htr, hspan, nextSpan, delay, pend, gate, gb>>
+Tick == now < MaxTime /\ now' = now + 1 /\ UNCHANGED <<call, handler, link, hdl, htr, hspan, nextSpan, delay, pend, gate, gb, ext, npass>>
 
 Next == Start \/ Abandon \/ LeafDone \/ Tick
         \/ \E k \in Hops : Read(k) \/ Expire(k) \/ Return(k) \/ Write(k) \/ CloseGate(k) \/ OpenGate(k)
@@ -127,7 +132,9 @@ FairSpec == Spec /\ WF_vars(Tick)
 
 SumDelay(k) == IF k = 1 THEN delay[1] ELSE IF k = 2 THEN delay[1] + delay[2] ELSE delay[1] + delay[2] + delay[3]
 (* C07: no hop observes a deadline earlier than the caller's, nor later than it plus accumulated transit *)
-Inv_C07 == \A k \in Hops : hdl[k] # -1 => (hdl[k] >= Deadline /\ hdl[k] <= Deadline + now)
+(* (relative to the deadline the previous hop passed with its nested call - its own, or a later one it asked for) *)
+Passed(k) == IF k = 1 THEN Deadline ELSE npass[k - 1]
+Inv_C07 == \A k \in Hops : hdl[k] # -1 => (hdl[k] >= Passed(k) /\ hdl[k] <= Passed(k) + now)
 (* C18: every hop observes the head's trace id; spans are pairwise different *)
 Inv_C18 == /\ \A k \in Hops : handler[k] # "none" => htr[k] = 7
            /\ \A j, k \in Hops : (j # k /\ handler[j] # "none" /\ handler[k] # "none") => hspan[j] # hspan[k]
